@@ -11,4 +11,6 @@ int conf_trace_count(void);
 void conf_set_index_checks(int on);
 void conf_fill_dir(const plan_t *p);
 void conf_env_setup(const plan_t *p);
+char *conf_ref_expand(const char *text, int *dc);      /* confsim10.c: the reference expander */
+extern const char *conf_tree_prefix;                    /* directory (below /cfg) that conf_tree_add puts files into */
 #endif
